@@ -3,7 +3,8 @@ import QuiverModel.Core.Types.Shape
 /-
 qm_c09 — driver for M-Types (relation, narrowing, inhabitation). One request per line:
 
-  (table (types …) (tuples …))      set the current table           → ok types=<n> tuples=<m> ordered=<b>
+  (table (types …) (tuples …))      set the current table           → ok types=<n> tuples=<m> distinct=<b> ordered=<b>
+                                    (distinct: no partial type names a field twice — `PartsDistinct`)
   (extend (types …) (tuples …))     append entries (kept until reset) → ok types=<n> tuples=<m>
   (reset)                           back to the table of the last `table` request → ok
   (class t)                                                         → fo=<b> closed=<b>
@@ -97,7 +98,7 @@ def c09Step (s : C09State) (req : List Sx) : C09State × String :=
     match Table.ofSx x with
     | some T' =>
       ({ base := T', cur := T', cache := [] },
-        s!"ok types={T'.types.length} tuples={T'.tuples.length} ordered={boolStr T'.orderedB}")
+        s!"ok types={T'.types.length} tuples={T'.tuples.length} distinct={boolStr T'.partsDistinctB} ordered={boolStr T'.orderedB}")
     | none => (s, "bad-request")
   | [.list [.atom "extend", .list (.atom "types" :: tys), .list (.atom "tuples" :: tus)]] =>
     match listMapM Ty.ofSx tys, listMapM TupleInfo.ofSx tus with
